@@ -13,7 +13,7 @@
    pair_stale_send_completion_refuted for what the code does when that is violated; an aio is
    submitted once at a time; cancellations carry a non-zero error. *)
 From Coq Require Import List Arith NArith Bool.
-From NngV Require Import Gen.Consts Proto.Common Proto.PairModel Proto.Pair0Model Proto.Pair1Model Proto.PushProofs Proto.PairProofs.
+From NngV Require Import Gen.Consts Proto.Common Proto.PairModel Proto.PairGuard Proto.Pair0Model Proto.Pair1Model Proto.PushProofs Proto.PairProofs Proto.PairGuardProofs.
 Import ListNotations.
 
 (* ---------- one peer at a time ---------- *)
@@ -184,6 +184,7 @@ Theorem pair_poll_w_mirror_holds : forall s o s' outs,
   pair0_step s o = (s', outs) \/ pair1_step s o = (s', outs) \/ pair1_raw_step s o = (s', outs) -> WInv s'.
 Proof.
   intros s o s' outs HI Hok Hn HW [H|[H|H]];
+    unfold pair0_step, pair1_step, pair1_raw_step in H; rewrite (pair_step_g_contract _ _ _ s o Hok) in H;
     (eapply pair_writable_mirror; [exact HI|exact Hok|exact Hn|left; reflexivity|exact HW|exact H]).
 Qed.
 Print Assumptions pair_poll_w_mirror_holds.
@@ -251,13 +252,26 @@ Theorem pair1_raw_header_handling :
 Proof. split; [exact pair1_cooked_send_header|exact pair1_raw_send_header]. Qed.
 Print Assumptions pair1_raw_header_handling.
 
-(* ---------- what the contract excludes, shown on the faithful model ---------- *)
-(* a successful send completion of an already stopped pipe, processed after a new peer was
-   attached: three messages accepted, three handed to transports, but the second one is
-   overwritten in the new pipe's busy aio_send (only the third is in flight) -- the order /
-   no-loss laws above are therefore stated under op_ok.  A scheduling race inside nng
-   (pipe_send_cb does not check that its pipe is still s->p); not reproducible with the
-   deterministic harness, see the C08 report. *)
+(* ---------- outside the contract: completions of a pipe that has been replaced ---------- *)
+(* The instances Pair0Model / Pair1Model are PairGuard.pair_step_g, whose two switches are read
+   from the current source.  Under the contract op_ok the guarded step IS pair_step, so every
+   theorem above holds of the source as it is now: *)
+Theorem pair_guard_is_step_under_contract : forall k fx fs s o,
+  op_ok s o -> pair_step_g k fx fs s o = pair_step k fx s o.
+Proof. exact pair_step_g_contract. Qed.
+Print Assumptions pair_guard_is_step_under_contract.
+Theorem pair_guard_run_under_contract : forall k fx fs ops s,
+  ops_ok k fx s ops -> pair_run_g k fx fs s ops = pair_run k fx s ops.
+Proof. exact pair_run_g_contract. Qed.
+Print Assumptions pair_guard_run_under_contract.
+
+(* the pinned callbacks (before fix ec0a8f1): a successful send completion of an already
+   stopped pipe, processed after a new peer was attached (it was queued before the close;
+   pipe_stop waits for it only after its critical section): three messages accepted, three
+   handed to transports, but the second one is overwritten in the new pipe's busy aio_send
+   (only the third is in flight).  Replayed on the real library with the callback delayed
+   (findings/c08/stale_demo.c: assertion in nni_aio_start on the second start of the new
+   pipe's aio_send) and repaired. *)
 Theorem pair_stale_send_completion_refuted : forall fx,
   let (s, tr) := pair_run K0 fx pair_init stale_witness in
   tr_acc K0 tr = [mkPmsg [] [1%N]; mkPmsg [] [2%N]; mkPmsg [] [3%N]] /\
@@ -265,6 +279,32 @@ Theorem pair_stale_send_completion_refuted : forall fx,
   pr_p s = Some 2%N /\ sendingl s = [mkPmsg [] [3%N]] /\ tr_wloss tr = [].
 Proof. exact pair_stale_send_completion_refuted. Qed.
 Print Assumptions pair_stale_send_completion_refuted.
+
+(* the source as it is now: such a completion schedules nothing and changes nothing else,
+   a message completing on a replaced pipe is never parked for the new peer, and on the
+   witness message 2 stays in flight on pipe 2 with message 3 still queued *)
+Theorem pair_stale_send_ignored_holds : forall k fx s p, is_cur s p = false ->
+  pair_step_g k fx true s (PSendDone p 0%N) =
+  (mkPair (pr_p s) (pr_ttl s) (pr_wmq s) (pr_wcap s) (pr_waq s) (pr_rmq s) (pr_rcap s) (pr_raq s)
+          (pr_rd s) (pr_wr s) (set_snd (pr_sending s) p None) (pr_readable s) (pr_writable s), []).
+Proof. exact pair_stale_send_ignored. Qed.
+Print Assumptions pair_stale_send_ignored_holds.
+Theorem pair_stale_recv_never_parked_holds : forall k fx s p m s' outs, is_cur s p = false ->
+  pair_step_g k fx true s (PRecvDone p 0%N m) = (s', outs) -> pr_rd s' = pr_rd s.
+Proof. exact pair_stale_recv_never_parked. Qed.
+Print Assumptions pair_stale_recv_never_parked_holds.
+Theorem pair_stale_send_completion_holds : forall fx,
+  let (s, tr) := pair_run_g K0 fx true pair_init stale_witness in
+  tr_tx tr = [mkPmsg [] [1%N]; mkPmsg [] [2%N]] /\
+  pr_p s = Some 2%N /\ sendingl s = [mkPmsg [] [2%N]] /\ pr_wmq s = [mkPmsg [] [3%N]] /\ tr_wloss tr = [].
+Proof. exact PairGuardProofs.pair_stale_send_completion_holds. Qed.
+Print Assumptions pair_stale_send_completion_holds.
+(* the switches of the source-configured instances: both repairs are present *)
+Theorem pair_current_source_repaired :
+  C08_PAIR0_STALE_FIXED = true /\ C08_PAIR1_STALE_FIXED = true /\
+  C08_PAIR0_STOP_WRITABLE_FIXED = true /\ C08_PAIR1_STOP_WRITABLE_FIXED = true.
+Proof. repeat split; reflexivity. Qed.
+Print Assumptions pair_current_source_repaired.
 
 (* ---------- the literals of the model are those of the current source ---------- *)
 Theorem pair_consts_match :
@@ -277,9 +317,9 @@ Theorem pair_consts_match :
   255%N = C08_PAIR1_RX_HOP_LIMIT /\ 255%N = C08_PAIR1_TX_HOP_LIMIT /\
   E_INVAL = C08_NNG_EINVAL /\ E_BUSY = C08_NNG_EBUSY /\ E_CLOSED = C08_NNG_ECLOSED /\ E_AGAIN = C08_NNG_EAGAIN /\
   E_NOTSUP = C08_NNG_ENOTSUP /\ E_PROTO = C08_NNG_EPROTO /\
-  pair0_step = pair_step K0 C08_PAIR0_STOP_WRITABLE_FIXED /\
-  pair1_step = pair_step (K1 false) C08_PAIR1_STOP_WRITABLE_FIXED /\
-  pair1_raw_step = pair_step (K1 true) C08_PAIR1_STOP_WRITABLE_FIXED.
+  pair0_step = pair_step_g K0 C08_PAIR0_STOP_WRITABLE_FIXED C08_PAIR0_STALE_FIXED /\
+  pair1_step = pair_step_g (K1 false) C08_PAIR1_STOP_WRITABLE_FIXED C08_PAIR1_STALE_FIXED /\
+  pair1_raw_step = pair_step_g (K1 true) C08_PAIR1_STOP_WRITABLE_FIXED C08_PAIR1_STALE_FIXED.
 Proof. repeat split; reflexivity. Qed.
 Print Assumptions pair_consts_match.
 
